@@ -57,6 +57,10 @@ def one_run(res, edges, m0, tap, ctx):
     e = sut("EECC()", gcmpy.EECC)
     # the graph is "built from edges" and the bound set through the public interface - in any order of those calls
     es_list = [tuple(x) for x in edges]
+    if ctx.get("bound_type") == "numpy":
+        import numpy as np
+        m0 = np.int64(m0)
+        res.count("bounds_given_as_numpy_integers")
     container = ctx.get("edge_container", "list")
     if container != "list":
         res.count("edges_given_as_" + container)
@@ -208,7 +212,8 @@ def run_case(case):
             tap = RandomTap(seed=val if kind == "seed" else 0, preset={"choice": val} if kind == "preset" else None, on_event=guard)
             r = one_run(res, edges, m0, tap, dict(base, schedule=[kind, val],
                                                    build_order=rng.choice(["edges-then-bound", "edges-then-bound", "bound-then-edges", "interleaved", "bound-twice", "peek-then-rebound", "reuse", "assign-graph-to-a-used-object"]),
-                                                   edge_container=rng.choice(["list", "list", "list", "tuple", "generator", "iterator", "zip", "dict-keys"])))
+                                                   edge_container=rng.choice(["list", "list", "list", "tuple", "generator", "iterator", "zip", "dict-keys"]),
+                                                   bound_type=rng.choice(["int", "int", "int", "numpy"])))
             if r is None:
                 ok = False; break
             cl, ties = r
